@@ -1402,6 +1402,34 @@ func c03Trunc(c *Ctx, p *Prog) {
 						continue
 					}
 					kk, isK := constInt(bo.Y)
+					// the digit's numeric value tested against 0: value = c - '0' (possibly merged with the hexadecimal
+					// letters' value through a phi)
+					if isK && kk == 0 && ((bo.Op == token.NEQ && f.True) || (bo.Op == token.EQL && !f.True)) {
+						var isDigitValue func(v ssa.Value, d int) bool
+						isDigitValue = func(v ssa.Value, d int) bool {
+							if d > 4 {
+								return false
+							}
+							switch x := v.(type) {
+							case *ssa.Convert:
+								return isDigitValue(x.X, d+1)
+							case *ssa.BinOp:
+								if k2, ok := constInt(x.Y); ok && x.Op == token.SUB && k2 == '0' {
+									return true
+								}
+							case *ssa.Phi:
+								for _, e := range x.Edges {
+									if isDigitValue(e, d+1) {
+										return true
+									}
+								}
+							}
+							return false
+						}
+						if isDigitValue(bo.X, 0) {
+							nonZero = true
+						}
+					}
 					switch {
 					case isK && kk == '0' && ((bo.Op == token.NEQ && f.True) || (bo.Op == token.EQL && !f.True)):
 						nonZero = true // c != '0'
@@ -1417,7 +1445,7 @@ func c03Trunc(c *Ctx, p *Prog) {
 			}
 		}
 	}
-	c.Floor(R, "places where readFloat marks the mantissa as truncated", n, 2)
+	c.Floor(R, "places where readFloat marks the mantissa as truncated", n, 1)
 }
 
 // c03FreshDecimal (C03/R11): the multiprecision decimal of the slow path starts from nothing: every (*decimal).set in
